@@ -99,6 +99,19 @@ def main(argv):
         for e in sorted(set(errs)):
             print(f"   error: {e}")
         summary.append((d, target, status, sorted(set(fired))))
+    # record the detection matrix next to the seeded mutants
+    if not argv:
+        res = {}
+        for d, t, st, f in summary:
+            name = d.rstrip("/").split("/")[-1]
+            res[name] = {"breaks": t, "status": st, "fired": f}
+            mp = os.path.join(d, "meta.json")
+            if os.path.exists(mp):
+                m = json.load(open(mp))
+                m["detected_by"] = f
+                m["detection_status"] = st
+                json.dump(m, open(mp, "w"), indent=1)
+        json.dump(res, open(os.path.join(HERE, "seeded", "RESULTS.json"), "w"), indent=1, sort_keys=True)
     print("\n---- summary ----")
     for d, t, s, f in summary:
         print(f"{s:11s} {t:4s} {os.path.basename(os.path.dirname(d + '/'))if False else d.split('/')[-2] + '/' + d.split('/')[-1] if d.count('/') > 1 else d}  {', '.join(f)[:120]}")
